@@ -111,9 +111,6 @@ pub open spec fn gcd_chain(n: Uint, vals: Seq<MInt>) -> bool {
 /// every element is at least 2
 pub open spec fn all_gt1(s: Seq<Uint>) -> bool { forall|i: int| 0 <= i < s.len() ==> uv(#[trigger] s[i]) > 1 }
 
-/// assumed until arith_gcd is under contract (C09): big_gcd is the gcd
-pub assume_specification<const N: usize> [crate::arith_gcd::big_gcd] (n: &BUint<N>, p: &BUint<N>) -> (r: BUint<N>)
-    ensures uv(r) == gcd_spec(uv(*n), uv(*p));
 } // verus!
 
 verus! {
@@ -147,12 +144,6 @@ verus! {
 pub assume_specification<const N: usize, const M: usize> [<BUint<N> as bnum::cast::CastFrom<BUint<M>>>::cast_from] (x: BUint<M>) -> (r: BUint<N>)
     ensures uv(r) == uv(x) % pow_w(N as nat);
 
-/// ASSUMED until arith_gcd is under contract (C09): `inv_mod` returns the inverse residue. The size precondition is the
-/// band in which the 36-bit headroom of gcd_internal's cofactors is respected (finding F8: it panics above ~501 bits
-/// for the 512-bit instantiation).
-pub assume_specification<const N: usize> [crate::arith_gcd::inv_mod] (n: &BUint<N>, p: &BUint<N>) -> (r: Result<BUint<N>, BUint<N>>)
-    requires uv(*p) > 0, bitlen(uv(*p)) + 12 <= 64 * N, bitlen(uv(*n)) + 12 <= 64 * N,
-    ensures r matches Ok(x) ==> uv(x) < uv(*p) && (uv(*n) * uv(x)) % uv(*p) == 1nat % uv(*p);
 } // verus!
 
 verus! {
